@@ -182,21 +182,23 @@ def handleCall (inp impl : Json) : R OpResult := do
   let pristine ← (match jopt trace "pristine" with | none => pure false | some v => jbool v)
   let s := c.strategy
   let sAll := stratOps.routeAll s
-  -- known-finding region `selectorlessStable` (`RV.TrafficX.panicsBare`): the stable Service carries no selector
-  -- at all and `DoTrafficRouting` is about to create the canary Service from it — `createCanaryService` assigns
-  -- into the nil selector map and panics.  The model says so (`doTrafficRoutingB`): the panic is compared too.
+  -- region of the FIXED finding `selectorlessStable` (`RV.TrafficX.refusesBare`): the stable Service carries no
+  -- selector at all and `DoTrafficRouting` is about to create the canary Service from it — `createCanaryService`
+  -- returns an error and nothing is written (`selectorless_refused`; before the repair it assigned into the nil
+  -- selector map and panicked).  Judged at full strength: a panic there fails `x_no_panic` like anywhere else, and
+  -- the regression oracle `x_selectorless_refused` wants the error with everything left as it was.
   let stableBare ← (match jopt (← jget inp "net") "stableBare" with | none => pure false | some v => jbool v)
-  let gBare := call == "doTrafficRouting" && panicsBare stratOps c b n stableBare
-  -- known-finding region `sameServiceGateway`: no canary Service of its own (the providers get the stable name
-  -- twice) together with a Gateway API ref.  There the Gateway member is judged by `C05.x_finalise_restores`
-  -- alone; the other oracles judge the remaining members.
-  let gSame := c.noGen && pin.gateway
+  let rBare := call == "doTrafficRouting" && refusesBare stratOps c b n stableBare
+  -- region of the FIXED finding `sameServiceGateway`: no canary Service of its own (the providers get the stable
+  -- name twice) together with a Gateway API ref — `newNetworkProvider` returns an error (`gatewayRefused`), no
+  -- Manager call touches a provider object (`sameService_refused`).  No oracle is weakened there any more.
+  let rSame := gatewayRefused p
   -- the C13 theorems speak about routes of reachable shape (`inv`): an arbitrary route that mentions the canary
   -- Service in other ways (random stream) is outside their hypothesis
-  let gOutside := pin.gateway && !gSame && (match n.g.2.2 with
+  let gOutside := pin.gateway && !rSame && (match n.g.2.2 with
     | some rules => !RV.Oracle.C13.inv ⟨p.stable, p.canary⟩ rules
     | none => false)
-  let pj : PCfg := if gSame || gOutside then { p with gateway := false } else p
+  let pj : PCfg := if gOutside then { p with gateway := false } else p
   let step := isStep stratOps s
   -- tags common to all calls
   let provTag := (if pin.custom then "C" else "") ++ (match pin.ingress with | some _ => "I" | none => "") ++
@@ -212,8 +214,9 @@ def handleCall (inp impl : Json) : R OpResult := do
     (if c.hasRef then [] else ["noRef"]) ++ (if b.w.isSome then ["fault:write"] else []) ++
     (if b.armed then ["fault:read"] else []) ++
     (if s.rhm.isSome then ["rhm"] else []) ++
-    (if c.hasRevKey then [] else ["guard:noRevKey"]) ++ (if gBare then ["guard:selectorlessStable"] else []) ++
-    (if stableBare then ["stableBare"] else []) ++ (if gSame then ["guard:sameServiceGateway"] else []) ++
+    (if c.hasRevKey then [] else ["guard:noRevKey"]) ++ (if rBare then ["region:selectorlessStable"] else []) ++
+    (if stableBare then ["stableBare"] else []) ++ (if rSame then ["region:sameServiceGateway"] else []) ++
+    (if P.isNone && c.hasRef then ["provider:refused"] else []) ++
     (if gOutside then ["route:outside-inv"] else []) ++
     (if pristine then ["walk:pristine"] else [])
   if call == "initialize" then
@@ -228,9 +231,10 @@ def handleCall (inp impl : Json) : R OpResult := do
     if !modelled then tags := tags ++ ["shape:unmodelled"]
     let model := if modelled then outJ kinds b stableBare o else Json.null
     if (jopt impl "panic").isSome then
-      -- inside the region of the known finding the panic is judged under C03 / C09
-      let keys := if gBare then ["C03.x_no_panic", "C09.x_no_panic"]
-        else ["C03.x_no_panic", "C04.x_no_panic", "C05.x_no_panic", "C06.x_no_panic", "C07.x_no_panic", "C09.x_no_panic"]
+      -- `no_panicB`: no state, no context, no fault makes a Manager call panic (every attached property fails)
+      let keys := ["C03.x_no_panic", "C04.x_no_panic", "C05.x_no_panic", "C06.x_no_panic", "C07.x_no_panic", "C09.x_no_panic",
+                   "C13.x_no_panic", "C14.x_no_panic", "C15.x_no_panic"] ++
+                  (if rBare then ["C03.x_selectorless_refused", "C09.x_selectorless_refused"] else [])
       return { model := model, holds := keys.map fun k => (k, false), tags := tags ++ ["panic"] }
     let io ← outOf p.canary impl
     tags := tags ++ [if io.done then "res:true" else "res:false", if io.err then "err" else "noerr",
@@ -244,8 +248,22 @@ def handleCall (inp impl : Json) : R OpResult := do
     let orig ← (match jopt trace "orig" with
       | none => pure none
       | some v => do pure (some (← netOf p.canary v)))
-    let mut holds : List (String × Bool) := [("C09.x_no_panic", true)]
+    let mut holds : List (String × Bool) := [("C09.x_no_panic", true), ("C03.x_no_panic", true)]
     holds := holds ++ [("C05.x_frame", frameX call n io)]
+    -- regression oracle of the fixed finding `selectorlessStable` (`selectorless_refused_oracle`)
+    if rBare then
+      let v := selectorlessRefusedX same m io
+      holds := holds ++ [("C03.x_selectorless_refused", v), ("C09.x_selectorless_refused", v)]
+    -- a configuration whose provider cannot be built (`refused_untouched`): the error instead of completion, no
+    -- provider object touched; in the region of the fixed finding `sameServiceGateway` this IS the full-strength
+    -- form of `C05.x_finalise_restores` / `C07.x_converges` (`sameService_refused`, `gateway_ref_finalise_total`,
+    -- `gateway_ref_converges`): the regression oracle of that finding
+    if P.isNone && ["doTrafficRouting", "finalisingTrafficRouting", "restoreGateway", "routeAllToNew"].contains call then
+      let v := refusedX call c step (sameG kinds io.net n) io
+      holds := holds ++ (["C03", "C04", "C05", "C07"].map fun pid => (pid ++ ".x_refused_untouched", v))
+      if rSame then
+        holds := holds ++ [("C13.x_refused_untouched", v),
+          (if call == "doTrafficRouting" || call == "routeAllToNew" then "C07.x_converges" else "C05.x_finalise_restores", v)]
     -- a read that failed with a non-NotFound error (reported by the harness' client) is reported by the call
     let iReadFailed ← fBool impl "readFailed"
     if iReadFailed then tags := tags ++ ["readFailed"]
@@ -269,9 +287,9 @@ def handleCall (inp impl : Json) : R OpResult := do
       holds := holds ++ [("C03.x_done_means_routed", doneMeansRoutedX c step sp io),
                          ("C03.x_services_before_routes", servicesBeforeRoutesX c n io && (providerTouched io.writes || sameG kinds io.net n)),
                          ("C04.x_services_before_routes", servicesBeforeRoutesX c n io && (providerTouched io.writes || sameG kinds io.net n)),
-                         ("C07.x_fixed_point", fixedPointX (prevDone && b.w.isNone && !b.armed && !gSame) same m io),
+                         ("C07.x_fixed_point", fixedPointX (prevDone && b.w.isNone && !b.armed) same m io),
                          ("C07.x_converges", convergesX (if healthy then streak else 0) (provBound + 1) io)]
-      if !p.custom && !gSame then holds := holds ++ [("C07.x_done_no_write", doneNoWriteX same m io)]
+      if !p.custom then holds := holds ++ [("C07.x_done_no_write", doneNoWriteX same m io)]
       if io.done && c.hasRef && step then
         holds := holds ++ specs s
         tags := tags ++ ["done:routed"]
@@ -297,7 +315,7 @@ def handleCall (inp impl : Json) : R OpResult := do
                          ("C05.x_finalising_order", finalisingOrderX c clean io),
                          ("C04.x_grace_separates", graceSeparatesX c io),
                          ("C05.x_grace_separates", graceSeparatesX c io),
-                         ("C07.x_fixed_point", fixedPointX (prevDone && b.w.isNone && !b.armed && !gSame) same m io),
+                         ("C07.x_fixed_point", fixedPointX (prevDone && b.w.isNone && !b.armed) same m io),
                          ("C07.x_converges", convergesX streak 9 io)]
     if call == "finalisingTrafficRouting" || call == "restoreGateway" then
       let complete := c.hasRef && !io.err && (if call == "restoreGateway" then !io.done else io.done)
@@ -319,8 +337,7 @@ def handleCall (inp impl : Json) : R OpResult := do
               (match p.ingress with | some (some _) => [("C14.x_restored", decide (g'.2.1.stable = on.net.g.2.1.stable))] | _ => []) ++
               (if p.gateway then [("C13.x_restored", gwRestoredB ⟨p.stable, trafficCanary⟩ on.net.g.2.2 g'.2.2 ||
                   decide (g'.2.2 = on.net.g.2.2))] else [])
-            holds := holds ++ (rs.filter fun kv => !(gSame && kv.1 == "C13.x_restored")) ++
-              [("C05.x_finalise_restores", rs.all (·.2))]
+            holds := holds ++ rs ++ [("C05.x_finalise_restores", rs.all (·.2))]
         | none => pure ()
     -- a read fault inside the provider's Finalise (not the stable Service `Get`, which is the first one of
     -- `FinalisingTrafficRouting`), no write fault: at most the member that hit it is left unclean
